@@ -25,7 +25,7 @@
    each segment's own `without_color` (link ids equal), so render_buffer uses the simpler
    `map remove_color_seg`.  The generator repeats equal styles inside one buffer. *)
 From RichModel Require Import Prelude Color Style.
-From RichGen Require Import StyleTables.
+From RichGen Require Import StyleTables AnsiFacts.
 
 Record cfg : Type := mkCfg {
   k_system : option ColorSystem;     (* Console._color_system *)
@@ -215,3 +215,38 @@ Fixpoint remove_color_cached (same : style -> style -> bool) (reuse_memo : style
       | None => g :: remove_color_cached same reuse_memo cache r
       end
   end.
+
+(* ------------------------------------------------------------------ Console.__init__: facts from the environment *)
+(* POSIX (WINDOWS = False, not Jupyter).  Keywords: force_terminal (None = ask file.isatty()),
+   color_system (None | "auto" | a name of COLOR_SYSTEMS), no_color (None = look at the
+   environment), legacy_windows (None = detect_legacy_windows() = False here).
+   Environment: the values of NO_COLOR, COLORTERM, TERM when present. *)
+Inductive cs_arg : Type := CSA_none | CSA_auto | CSA_name (sys : ColorSystem).
+Record envv : Type := mkEnv { e_no_color : option str; e_colorterm : option str; e_term : option str }.
+
+Definition env_get (o : option str) : str := match o with Some v => v | None => [] end.   (* .get(name, "") *)
+Definition mem_str (s : str) (l : list str) : bool := existsb (str_eqb s) l.
+(* term.partition("-")[2] *)
+Fixpoint after_hyphen (s : str) : str :=
+  match s with [] => [] | c :: r => if c =? 45 then r else after_hyphen r end.
+
+Definition is_dumb_terminal (is_terminal : bool) (e : envv) : bool :=
+  is_terminal && mem_str (py_lower (env_get (e_term e))) DUMB_TERMS.
+
+Definition detect_color_system (is_terminal : bool) (e : envv) : option ColorSystem :=
+  if negb is_terminal || is_dumb_terminal is_terminal e then None
+  else if mem_str (py_lower (py_strip (env_get (e_colorterm e)))) COLORTERM_TRUECOLOR then Some CS_TRUECOLOR
+  else match assoc_str (after_hyphen (py_lower (py_strip (env_get (e_term e))))) TERM_COLORS with
+       | Some n => ColorSystem_of_int n
+       | None => Some CS_STANDARD
+       end.
+
+(* self.no_color: the keyword if given, else the PRESENCE of NO_COLOR (whatever its value) *)
+Definition no_color_of (arg : option bool) (e : envv) : bool :=
+  match arg with Some b => b | None => match e_no_color e with Some _ => true | None => false end end.
+
+Definition cfg_of_env (force_terminal : option bool) (isatty : bool) (cs : cs_arg) (no_color legacy : option bool)
+                      (e : envv) (fix_d16 fix_ctl : bool) : cfg :=
+  let term := match force_terminal with Some b => b | None => isatty end in
+  mkCfg (match cs with CSA_none => None | CSA_auto => detect_color_system term e | CSA_name sys => Some sys end)
+        (no_color_of no_color e) term (match legacy with Some b => b | None => false end) fix_d16 fix_ctl.
